@@ -37,9 +37,11 @@ func (bla *BucketLeapArray) NewEmptyBucket() interface{} {
 }
 
 func (bla *BucketLeapArray) ResetBucketTo(bw *BucketWrap, startTime uint64) *BucketWrap {
-	atomic.StoreUint64(&bw.BucketStart, startTime)
+	// Clear the expired data before publishing the new start time, so that a
+	// concurrent reader never sees the old counters under the new start.
 	mb := bw.Value.Load().(*MetricBucket)
 	mb.reset()
+	atomic.StoreUint64(&bw.BucketStart, startTime)
 	return bw
 }
 
